@@ -620,3 +620,169 @@ func isFloatT(t types.Type) bool {
 }
 
 var _ ssa.Value
+
+func init() { register("C15", ruleC15_7) }
+
+// ruleC15_7: the stops the paint interpolates are the stops the registers hold. initGradient writes stop i of the
+// scratch array from colour register (CBASE+i) mod 64 and number register (NBASE+i) mod 64 - the offset as it is, each
+// colour channel widened to 16 bits by 0x101 - inside the stop loop and nowhere else, and hands exactly the first
+// NSTOPS elements to Gradient.Init.
+func ruleC15_7(c *Ctx) {
+	R := c.R
+	R.Rule("C15.7", "the stops interpolated are the stops in the registers: initGradient stores stop i (the stop loop's counter) as {offset: NREG[(NBASE+i) mod 64], colour: each channel of CREG[(CBASE+i) mod 64] times 0x101, channels in place}, stores into the stop array nowhere else, and hands Gradient.Init the first NSTOPS elements of that array", 4)
+	r := c.newRend()
+	ig := c.Method("render", "Renderer", "initGradient", true)
+	if !r.ok || ig == nil {
+		return
+	}
+	pos := c.FPos(ig)
+	key := "render.(*Renderer).initGradient#stops"
+	stopsPath := r.fieldPath("stops")
+	if stopsPath == nil {
+		return
+	}
+	in := c.Interp()
+	h := c.newRendHooks(in)
+	for _, o := range []string{"ValidAlphaPremulColor", "DecodeGradient", "Init"} {
+		h.opaque[o] = true
+	}
+	type st struct {
+		path  sym.Path
+		val   *sym.Term
+		loops []sym.LoopRef
+		site  ssa.Instruction
+	}
+	var stores []st
+	in.OnStore = func(fr *sym.Frame, site ssa.Instruction, ptr, val *sym.Term) {
+		if ptr == nil || ptr.Obj == nil || !strings.HasSuffix(ptr.Obj.ID, "param:z") || len(ptr.Path) <= len(stopsPath) {
+			return
+		}
+		for i, e := range stopsPath {
+			if ptr.Path[i].Field != e.Field {
+				return
+			}
+		}
+		if ev := in.Emit(fr, "store:stops", site, "", []*sym.Term{ptr, val}, nil); ev != nil {
+			stores = append(stores, st{ptr.Path, val, ev.Loops, site})
+		}
+	}
+	mem := r.resetM.Clone()
+	zobj := in.ParamObj("z", r.T)
+	mem.Store(zobj, r.fieldPath("cReg"), sym.Atom("cReg", nil))
+	mem.Store(zobj, r.fieldPath("nReg"), sym.Atom("nReg", nil))
+	in.Run(ig, nil, mem)
+	var initEv *sym.Event
+	for _, ev := range in.Events {
+		if ev.Kind == "opaquecall" && ev.Callee == "Init" {
+			initEv = ev
+		}
+	}
+	if initEv == nil || len(initEv.Args) != 5 {
+		R.Unknown(key, pos, "the call of Gradient.Init was not found")
+		return
+	}
+	dg := func(k int) *sym.Term {
+		return sym.Extract(sym.Call("DecodeGradient", nil, sym.Atom("param:rgba", nil)), k, types.Typ[types.Uint8])
+	}
+	// what Init gets
+	sl := initEv.Args[4]
+	okSl := sl.Op == "slice" && len(sl.Args) == 3 && sl.Args[0].Op == "ptr" && sl.Args[0].Path.String() == stopsPath.String() &&
+		sl.Args[1].Key() == "0" && stripIntConv(sl.Args[2]).Key() == dg(4).Key()
+	R.Check(okSl, key+":handed-on", c.Pos(initEv.Site), "Init(..., z.stops[:NSTOPS])", shortKey(sl))
+	// the stores
+	var loop *sym.LoopRef
+	bad := ""
+	perField := map[string]*sym.Term{}
+	var idx *sym.Term
+	for _, s := range stores {
+		if len(s.loops) != 1 {
+			bad = "a store into the stop array outside the stop loop at " + c.Pos(s.site)
+			continue
+		}
+		if loop == nil {
+			l := s.loops[0]
+			loop = &l
+		} else if loop.Header != s.loops[0].Header || loop.Frame != s.loops[0].Frame {
+			bad = "stores into the stop array in two different loops (" + c.Pos(s.site) + ")"
+			continue
+		}
+		e := s.path[len(stopsPath)]
+		if e.Sym == nil {
+			bad = "a store at a fixed index " + fmt.Sprint(e.Index)
+			continue
+		}
+		if idx == nil {
+			idx = e.Sym
+		} else if !sym.Eq(idx, e.Sym) {
+			bad = "stores at two different indices in one round"
+		}
+		// a whole Stop (or a whole colour) stored at once counts field by field
+		var spread func(prefix string, v *sym.Term)
+		spread = func(prefix string, v *sym.Term) {
+			if v != nil && v.Op == "agg" {
+				for k, a := range v.Args {
+					spread(fmt.Sprintf("%s.%d", prefix, k), a)
+				}
+				return
+			}
+			perField[prefix] = v
+		}
+		spread(s.path[len(stopsPath)+1:].String(), s.val)
+	}
+	okIdx := false
+	var li *sym.LoopInfo
+	if loop != nil && idx != nil {
+		if l, ok := loop.Frame.Loop(loop.Header); ok {
+			li = l
+			okIdx = sym.Eq(stripConv(idx), stripConv(l.IndexVal)) && stripIntConv(l.Bound).Key() == dg(4).Key()
+		}
+	}
+	R.Check(bad == "" && okIdx, key+":where", pos, "stored at the stop loop's counter, in the stop loop (0..NSTOPS-1), nowhere else", bad+fmt.Sprintf(" (%d stores, index %s)", len(stores), shortKey(idx)))
+	if li == nil {
+		return
+	}
+	// the values: Stop{Offset float64, RGBA64{R,G,B,A uint16}}
+	reg := func(t *sym.Term, regs string, base *sym.Term) bool {
+		t = stripConv(t)
+		if t.Op != "index" || t.Args[0].Key() != regs {
+			return false
+		}
+		x, ok := mod64(t.Args[1])
+		if !ok {
+			return false
+		}
+		e := poly.NewEnv()
+		e.Rename[base.Key()] = "base"
+		e.Rename[li.IndexVal.Key()] = "i"
+		e.Rename[stripConv(li.IndexVal).Key()] = "i"
+		g, ok := e.One(x)
+		return ok && g.Equal(v("base").Add(v("i")))
+	}
+	okOff := perField[".0"] != nil && reg(perField[".0"], "$nReg", dg(1))
+	R.Check(okOff, key+":offset", pos, "offset = NREG[(NBASE+i) mod 64]", shortKey(perField[".0"]))
+	okCol := true
+	detail := ""
+	for ch := 0; ch < 4; ch++ {
+		val := perField[fmt.Sprintf(".1.%d", ch)]
+		if val == nil {
+			okCol, detail = false, fmt.Sprintf("channel %d is not stored", ch)
+			continue
+		}
+		// uint16(c.X) * 0x101
+		vv := val
+		okCh := vv.Op == "bin" && vv.Name == "*" && len(vv.Args) == 2
+		if okCh {
+			a, b := vv.Args[0], vv.Args[1]
+			if a.IsConst() {
+				a, b = b, a
+			}
+			k, isC := b.Int64()
+			src := stripConv(a)
+			okCh = isC && k == 0x101 && src.Op == "field" && src.Name == fmt.Sprint(ch) && reg(src.Args[0], "$cReg", dg(0))
+		}
+		if !okCh {
+			okCol, detail = false, fmt.Sprintf("channel %d = %s", ch, shortKey(val))
+		}
+	}
+	R.Check(okCol, key+":colour", pos, "each channel = the same channel of CREG[(CBASE+i) mod 64] times 0x101", detail)
+}
